@@ -10,9 +10,9 @@ def publishedTables : Tables where
   capsRestrictedAdd := [b!"NET_BIND_SERVICE"]
   capAll := b!"ALL"
   seccompTypes := [b!"Localhost", b!"RuntimeDefault"]
-  seccompAnnValues := [b!"runtime/default", b!"docker/default"]
+  seccompAnnValues := [b!"docker/default", b!"runtime/default"]
   seccompAnnPrefix := b!"localhost/"
-  appArmorTypes := [b!"RuntimeDefault", b!"Localhost"]
+  appArmorTypes := [b!"Localhost", b!"RuntimeDefault"]
   appArmorAnnValues := [b!"", b!"runtime/default"]
   appArmorAnnPrefix := b!"localhost/"
   procMountDefault := b!"Default"
